@@ -1508,9 +1508,8 @@ class ActiveSelectorBasic:
         """Select those Transitions which overlap with the ZoneMatch interval
         which may not be at year boundary. Also select the latest prior
         transition before the given ZoneMatch, shifting the transition time to
-        the start of the ZoneMatch. The returned array of transitions is likely
-        to be unsorted again, since the latest prior transition is added to the
-        end.
+        the start of the ZoneMatch, where it becomes the first element of the
+        returned array.
         """
         if self.debug:
             logging.info('ActiveSelectorBasic.select_active_transitions()')
@@ -1527,9 +1526,7 @@ class ActiveSelectorBasic:
             self._process_transition(match, transition, results)
         transitions = results['transitions']
 
-        # Add the latest prior transition. Adding this at the end of the array
-        # will likely cause the transitions to become unsorted, requiring
-        # another sorting pass.
+        # Add the latest prior transition.
         if not results.get('startTransitionFound'):
             prior_transition = results.get('latestPriorTransition')
             if not prior_transition:
@@ -1541,7 +1538,11 @@ class ActiveSelectorBasic:
             prior_transition.originalTransitionTime = \
                 prior_transition.transitionTime
             prior_transition.transitionTime = match.startDateTime
-            _add_transition_sorted(transitions, prior_transition)
+            # It now starts the ZoneMatch, and every other selected transition
+            # is strictly inside the ZoneMatch, so it goes first.
+            # _add_transition_sorted() compares only (year, month, day), and
+            # would leave it after a transition later on the same day.
+            transitions.insert(0, prior_transition)
 
         return transitions
 
